@@ -371,7 +371,7 @@ Proof.
   - rewrite Hr, Ho; cbn [requested]; apply write_calls_PerRun.
 Qed.
 
-Theorem recombination_list_covers_run_phase : forall gr pr er o ids vs cs out,
+Theorem recombination_list_covers_run_repaired : forall gr pr er o ids vs cs out,
   o_recs o = true -> run gr PerRun pr er o ids vs cs = Some out ->
   exists calls,
     Forall2 (fun ci es => inst_rec_entries er (c_name (fst ci)) (snd ci) = Some es) (instances cs) calls /\
@@ -384,7 +384,7 @@ Proof.
   - rewrite Hr, Ho; cbn [requested]; apply write_calls_PerRun.
 Qed.
 
-Theorem changed_genotype_list_covers_run_phase : forall rr pr er o ids vs cs out,
+Theorem changed_genotype_list_covers_run_repaired : forall rr pr er o ids vs cs out,
   o_gts o = true -> run PerRun rr pr er o ids vs cs = Some out ->
   exists calls,
     Forall2 (fun c es => exists wr,
@@ -1417,4 +1417,115 @@ Proof.
   rewrite Hps; cbn [andb].
   apply in_combine_r in Hco; apply in_map_iff in Hco; destruct Hco as [ovc0 [<- _]].
   rewrite ps_of_call_no_ps; reflexivity.
+Qed.
+
+(* ------------------------------------------------------------------ the event-by-event specification *)
+(* the first variant of an event is never the first variant of its phase set (`range(2, len(block))`) *)
+Lemma find_recombination_pred : forall er tv comps positions costs evs ev,
+  NoDup (map fst comps) ->
+  find_recombination er tv comps positions costs = Some evs -> In ev evs ->
+  exists b p0, lookup (ev_p1 ev) comps = Some b /\ lookup p0 comps = Some b /\ p0 < ev_p1 ev.
+Proof.
+  intros er tv comps positions costs evs ev ND H HI; unfold find_recombination in H.
+  assert (Hbody : (if negb ((length tv =? length positions)%nat && (length positions =? length costs)%nat) then None
+    else if negb (forallb (fun pc => existsb (Z.eqb (fst pc)) positions) comps) then None
+    else match map_opt (fun b => map_opt (fun p => option_map (pair p) (lookup p (combine positions (combine tv costs)))) (block_of comps b)) (block_ids comps) with
+         | None => None
+         | Some blocks => Some (isort ev_leb (flat_map block_events blocks))
+         end) = Some evs).
+  { destruct er; [exact H|]. destruct positions; [injection H as <-; destruct HI | exact H]. }
+  clear H; rename Hbody into H.
+  destruct (negb _); [discriminate|].
+  destruct (negb _); [discriminate|].
+  destruct (map_opt _ (block_ids comps)) as [blocks|] eqn:Eb; [|discriminate].
+  injection H as <-.
+  apply isort_In in HI; apply in_flat_map in HI; destruct HI as [blk [Hblk HI]].
+  destruct (map_opt_In _ _ _ _ _ _ Eb Hblk) as [b [_ Hb]]; cbn beta in Hb.
+  destruct (block_cols_spec _ _ _ Hb) as [Hfst _].
+  unfold block_events in HI.
+  destruct (pair_events_spec _ _ HI) as [l1 [ca [cb [l2 [Htl [-> _]]]]]].
+  destruct blk as [|c0 tlb]; [destruct l1; discriminate|]; cbn [tl] in Htl; subst tlb.
+  assert (Hpos : block_of comps b = fst c0 :: map fst l1 ++ col_pos ca :: col_pos cb :: map fst l2).
+  { rewrite <- Hfst; cbn [map]; rewrite map_app; reflexivity. }
+  pose proof (isort_sorted (map fst (filter (fun pc => snd pc =? b) comps))) as HS.
+  fold (block_of comps b) in HS.
+  pose proof (block_of_NoDup comps b ND) as HND.
+  rewrite Hpos in HS, HND.
+  assert (Ha : In (col_pos ca) (block_of comps b))
+    by (rewrite Hpos; right; apply in_or_app; right; left; reflexivity).
+  assert (H0 : In (fst c0) (block_of comps b)) by (rewrite Hpos; left; reflexivity).
+  apply block_of_In in Ha; apply block_of_In in H0.
+  exists b, (fst c0); cbn [mk_event ev_p1].
+  split; [apply lookup_In_NoDup; assumption|]. split; [apply lookup_In_NoDup; assumption|].
+  inversion HS as [|x l HS' Hall]; subst. inversion HND as [|x l Hnot _]; subst.
+  rewrite Forall_forall in Hall.
+  assert (Hin : In (col_pos ca) (map fst l1 ++ col_pos ca :: col_pos cb :: map fst l2))
+    by (apply in_or_app; right; left; reflexivity).
+  specialize (Hall _ Hin).
+  assert (fst c0 <> col_pos ca) by (intros E; apply Hnot; rewrite E; exact Hin).
+  lia.
+Qed.
+
+Lemma nth_error_combine_seq : forall (A : Type) (l : list A) (k : nat) (a : A),
+  nth_error l k = Some a -> In (k, a) (combine (seq 0 (length l)) l).
+Proof.
+  intros A l k a H.
+  assert (Hg : forall start, In ((start + k)%nat, a) (combine (seq start (length l)) l)).
+  { revert k H; induction l as [|x t IH]; intros k H start; [destruct k; discriminate|].
+    cbn [length seq combine]; destruct k as [|k]; cbn [nth_error] in H.
+    - injection H as ->; left; rewrite Nat.add_0_r; reflexivity.
+    - right; replace (start + S k)%nat with (S start + k)%nat by lia; apply IH; exact H. }
+  exact (Hg 0%nat).
+Qed.
+
+(* Every entry that the model's write_recombination_list produces for an instance is one of the events of the
+   implementation-independent specification (expected_recs) that the harness evaluates on the real files. *)
+Theorem model_entries_are_expected : forall er chromname i es e,
+  NoDup (map fst (i_comps i)) -> inst_rec_entries er chromname i = Some es -> In e es ->
+  In e (expected_recs chromname i).
+Proof.
+  intros er chromname i es e ND H HI.
+  destruct (inst_rec_entries_spec _ _ _ _ _ ND H HI)
+    as (k & child & father & mother & b & ta & ca & tb & cb & Hnth & Hch & Hcn & Hl1 & Hl2 & Hlt & Hbetween
+        & Hc1 & Hc2 & Hne & Hf1 & Hf2 & Hm1 & Hm2 & Hcost).
+  (* the predecessor inside the phase set *)
+  assert (Hpred : exists p0, lookup p0 (i_comps i) = Some b /\ p0 < ce_p1 e - 1).
+  { unfold inst_rec_entries in H.
+    destruct (map_opt _ _) as [ll|] eqn:Ell; [|discriminate]; cbn [option_map] in H; injection H as <-.
+    apply in_concat in HI; destruct HI as [l [Hl He]].
+    destruct (map_opt_In _ _ _ _ _ _ Ell Hl) as [[k' [child' [f' m']]] [_ Htr]].
+    unfold trio_rec_entries in Htr; cbn [fst snd] in Htr.
+    destruct (find_recombination _ _ _ _ _) as [evs|] eqn:Ef; [|discriminate].
+    cbn [option_map] in Htr; injection Htr as <-.
+    apply in_map_iff in He; destruct He as [ev [<- Hev]].
+    destruct (find_recombination_pred _ _ _ _ _ _ _ ND Ef Hev) as [b' [p0 [Hb1 [Hb2 Hp0]]]].
+    cbn [entry_of_event ce_p1] in *; rewrite Z.add_simpl_r in *.
+    rewrite Hb1 in Hl1; injection Hl1 as ->. exists p0; auto. }
+  destruct Hpred as [p0 [Hp0 Hp0lt]].
+  unfold expected_recs.
+  apply in_flat_map; exists (k, (child, (father, mother))); split; [apply nth_error_combine_seq; exact Hnth|].
+  cbn [fst snd].
+  assert (Hin1 : In (ce_p1 e - 1) (i_positions i)) by (apply lookup_In in Hc1; exact (in_combine_l _ _ _ _ Hc1)).
+  assert (Hin2 : In (ce_p2 e - 1) (i_positions i)) by (apply lookup_In in Hc2; exact (in_combine_l _ _ _ _ Hc2)).
+  apply in_flat_map; exists (ce_p1 e - 1); split; [exact Hin1|].
+  apply in_flat_map; exists (ce_p2 e - 1); split; [exact Hin2|].
+  unfold expected_event, trio_cols; rewrite Hc1, Hc2.
+  assert (Hsn : set_neighbours (i_comps i) (ce_p1 e - 1) (ce_p2 e - 1) = true).
+  { unfold set_neighbours; rewrite Hl1, Hl2, Z.eqb_refl; cbn [andb].
+    assert (E1 : (ce_p1 e - 1 <? ce_p2 e - 1) = true) by (apply Z.ltb_lt; lia).
+    rewrite E1; cbn [andb].
+    assert (E2 : existsb (fun rc => (snd rc =? b) && (ce_p1 e - 1 <? fst rc) && (fst rc <? ce_p2 e - 1)) (i_comps i) = false).
+    { destruct (existsb _ _) eqn:Ex; [|reflexivity].
+      apply existsb_exists in Ex; destruct Ex as [[q b'] [Hq Hc]]; cbn [fst snd] in Hc.
+      apply andb_true_iff in Hc; destruct Hc as [Hc Hc3]; apply andb_true_iff in Hc; destruct Hc as [Hc1' Hc2'].
+      apply Z.eqb_eq in Hc1'; subst b'; apply Z.ltb_lt in Hc2'; apply Z.ltb_lt in Hc3.
+      exfalso; apply (Hbetween q); [lia | apply lookup_In_NoDup; assumption]. }
+    rewrite E2; cbn [negb andb].
+    apply existsb_exists; exists (p0, b); split; [apply lookup_In; exact Hp0|].
+    cbn [fst snd]; rewrite Z.eqb_refl; cbn [andb]; apply Z.ltb_lt; exact Hp0lt. }
+  rewrite Hsn; cbn [andb].
+  assert (E3 : (ta =? tb) = false) by (apply Z.eqb_neq; exact Hne).
+  rewrite E3; cbn [negb].
+  left; destruct e as [c0 c1 p1 p2 f1 f2 m1 m2 cost]; cbn in *; subst.
+  f_equal; lia.
 Qed.
